@@ -223,6 +223,26 @@ fn candidates(p: &Plan) -> Vec<Plan> {
                     });
                 }
             }
+            MFault::Garbage { bytes, .. } if bytes.len() > 1 => {
+                push(&|c| {
+                    if let MFault::Garbage { bytes, .. } = &mut c.medium[i] {
+                        bytes.truncate(bytes.len() / 2);
+                    }
+                });
+                push(&|c| {
+                    if let MFault::Garbage { bytes, .. } = &mut c.medium[i] {
+                        bytes.pop();
+                    }
+                });
+                push(&|c| {
+                    if let MFault::Garbage { bytes, .. } = &mut c.medium[i] {
+                        let n = bytes.len();
+                        for b in &mut bytes[n / 2..] {
+                            *b = 0;
+                        }
+                    }
+                });
+            }
             MFault::Tail { bytes } if bytes.len() > 1 => {
                 push(&|c| {
                     if let MFault::Tail { bytes } = &mut c.medium[i] {
